@@ -34,7 +34,9 @@ OddAttrs == { [DefFw EXCEPT !.at = a, !.to = "NONE"] : a \in {"FEE", "UNREG", "N
                     [DefFw EXCEPT !.at = "CCTP", !.dom = 0, !.mint = "LONG33", !.to = "NONE"],
                     [DefFw EXCEPT !.at = "CCTP", !.dom = 0, !.mint = "SHORT", !.to = "NONE"],
                     [DefFw EXCEPT !.at = "CCTP", !.dom = 0, !.mint = "MINT_A", !.caller = "LONG33", !.to = "NONE"],
-                    [DefFw EXCEPT !.at = "INT", !.to = "ORB_UPPER"], [DefFw EXCEPT !.at = "INT", !.to = "OTHER_HRP"] }
+                    [DefFw EXCEPT !.at = "INT", !.to = "ORB_UPPER"], [DefFw EXCEPT !.at = "INT", !.to = "OTHER_HRP"],
+                    [DefFw EXCEPT !.at = "INT", !.to = "F1_MIXED"], [DefFw EXCEPT !.at = "INT", !.to = "F1_UPPER"],
+                    [DefFw EXCEPT !.at = "INT", !.to = "F1_SPACE"], [DefFw EXCEPT !.at = "INT", !.to = "ORB_MIXED"] }
              \* the interchain gas paymaster as custom hook: gas limit x max fee x max fee denom
              \cup { [DefFw EXCEPT !.at = "HYP", !.tok = "T1", !.dom = 1, !.rcp = "R_A", !.hook = "H_IGP", !.gas = g, !.maxfee = mf, !.mfd = d, !.to = "NONE"] :
                       g \in {0, 3, 9}, mf \in {0, 5}, d \in {"uusdc", "ustake"} }
